@@ -30,6 +30,8 @@ pub mod rt {
         Recv(usize, Option<u64>),
         Join(usize),
         SockRead(usize, usize, Option<u64>),
+        /// blocking write on a simulated connection: (conn, side, deadline)
+        SockWrite(usize, usize, Option<u64>),
         Accept(usize),
         Sleep(u64),
     }
@@ -79,6 +81,7 @@ pub mod rt {
         pub addr: [SocketAddr; 2],
         pub nonblocking: [bool; 2],
         pub rtimeout: [Option<u64>; 2],
+        pub wtimeout: [Option<u64>; 2],
         pub refs: [usize; 2],
         /// everything side s ever wrote (for oracles)
         pub written: [Vec<u8>; 2],
@@ -146,6 +149,7 @@ pub mod rt {
             match th.want {
                 Want::Recv(_, d) => d,
                 Want::SockRead(_, _, d) => d,
+                Want::SockWrite(_, _, d) => d,
                 Want::Sleep(u) => Some(u),
                 _ => None,
             }
@@ -171,6 +175,10 @@ pub mod rt {
                     let k = &self.conns[c];
                     !k.buf[s].is_empty() || k.wclosed[1 - s] || d.map_or(false, |d| self.now >= d)
                 }
+                Want::SockWrite(c, s, d) => {
+                    let k = &self.conns[c];
+                    k.buf[1 - s].len() < super::net::SNDBUF || k.wclosed[s] || k.dropped[1 - s] || d.map_or(false, |d| self.now >= d)
+                }
                 Want::Accept(l) => !self.listeners[l].backlog.is_empty() || self.listeners[l].closed,
                 Want::Sleep(u) => self.now >= u,
             }
@@ -192,6 +200,7 @@ pub mod rt {
             Want::SockRead(a, s, _) => 7 + ((*a as u64) << 8) + ((*s as u64) << 40),
             Want::Accept(a) => 8 + ((*a as u64) << 8),
             Want::Sleep(u) => 9 + (u << 8),
+            Want::SockWrite(a, s, _) => 10 + ((*a as u64) << 8) + ((*s as u64) << 40),
         }
     }
 
@@ -1214,6 +1223,7 @@ pub mod net {
                 addr: [from, to],
                 nonblocking: [false, false],
                 rtimeout: [None, None],
+                    wtimeout: [None, None],
                 refs: [1, 1],
                 written: [vec![], vec![]],
                 wlog: [vec![], vec![]],
@@ -1307,6 +1317,10 @@ pub mod net {
         pub fn set_write_timeout(&self, d: Option<Duration>) -> Result<()> {
             match self {
                 TcpStream::Real(s) => s.set_write_timeout(d),
+                TcpStream::Sim(e) => {
+                    e.rt.with(|g| g.conns[e.conn].wtimeout[e.side] = d.map(|d| d.as_nanos() as u64));
+                    Ok(())
+                }
                 _ => Ok(()),
             }
         }
@@ -1365,12 +1379,21 @@ pub mod net {
         r.unwrap_or_else(|| Err(Error::new(ErrorKind::Other, "verif: execution ended")))
     }
 
-    /// send-buffer size of a simulated socket in non-blocking mode
-    pub const NB_SNDBUF: usize = 256 * 1024;
+    /// send-buffer size of a simulated socket: what the peer has not read yet never exceeds it. A
+    /// non-blocking write takes what fits (short write) or gives WouldBlock; a blocking write waits for room
+    /// until its write timeout.
+    pub const SNDBUF: usize = 256 * 1024;
+    pub const NB_SNDBUF: usize = SNDBUF;
 
     fn sim_write(e: &SimEnd, buf: &[u8]) -> Result<usize> {
+        let (nb, to) = e.rt.with(|g| (g.conns[e.conn].nonblocking[e.side], g.conns[e.conn].wtimeout[e.side])).unwrap_or((true, None));
         if let Some((rt, me)) = cur() {
-            rt.point(me, Want::Run);
+            if nb || buf.is_empty() {
+                rt.point(me, Want::Run);
+            } else {
+                let deadline = to.map(|t| rt.now().saturating_add(t));
+                rt.point(me, Want::SockWrite(e.conn, e.side, deadline));
+            }
         }
         let r = e.rt.with(|g| {
             let now = g.now;
@@ -1381,16 +1404,13 @@ pub mod net {
             if k.dropped[1 - e.side] {
                 return Err(Error::new(ErrorKind::BrokenPipe, "verif: peer closed"));
             }
-            // a non-blocking socket only takes what fits into its (bounded) send buffer: a short write, or
-            // WouldBlock when it is full. Blocking writes are modelled with an unbounded buffer.
-            let mut n = buf.len();
-            if k.nonblocking[e.side] {
-                let room = NB_SNDBUF.saturating_sub(k.buf[1 - e.side].len());
-                if room == 0 && !buf.is_empty() {
-                    return Err(Error::new(ErrorKind::WouldBlock, "verif: send buffer full"));
-                }
-                n = n.min(room);
+            // a socket only takes what fits into its (bounded) send buffer: a short write, or WouldBlock
+            // when it is full (non-blocking mode: at once; blocking mode: after the write timeout)
+            let room = SNDBUF.saturating_sub(k.buf[1 - e.side].len());
+            if room == 0 && !buf.is_empty() {
+                return Err(Error::new(ErrorKind::WouldBlock, "verif: send buffer full (would block / timed out)"));
             }
+            let n = buf.len().min(room);
             let off = k.written[e.side].len();
             k.wlog[e.side].push((off, now));
             k.written[e.side].extend_from_slice(&buf[..n]);
@@ -1553,6 +1573,7 @@ pub mod net {
                     addr: [a, b],
                     nonblocking: [false, false],
                     rtimeout: [None, None],
+                    wtimeout: [None, None],
                     refs: [1, 1],
                     written: [vec![], vec![]],
                     wlog: [vec![], vec![]],
